@@ -51,6 +51,10 @@ type BFT struct {
 	Metrics      *lib.Metrics       // telemetry
 	BFTStartTime time.Time          // start time of BFT for this height
 	log          lib.LoggerI        // logging
+
+	// the build height of the proposal this node validated in the current round: the lock takes it from here, not from the
+	// (unsigned) copy in the PRECOMMIT message
+	validatedRCBuildHeight uint64
 }
 
 // New() creates a new instance of HotstuffBFT for a specific Committee
@@ -395,6 +399,8 @@ func (b *BFT) StartProposeVotePhase() {
 		b.RoundInterrupt()
 		return
 	}
+	// remember the build height the proposal was validated under
+	b.validatedRCBuildHeight = msg.RcBuildHeight
 	// Store the proposal data to enforce consistency during this voting round
 	// Note: This is not the same as a `lock`, since a `lock` would keep the data even after the round changes
 	// (the cached block hash must go with the block it was computed from: the vote below signs GetBlockHash())
@@ -467,7 +473,9 @@ func (b *BFT) StartPrecommitVotePhase() {
 	}
 	// `lock` on the proposal (only by satisfying the SAFE-NODE-PREDICATE or COMMIT can this node unlock)
 	b.HighQC = msg.Qc
-	b.RCBuildHeight = msg.RcBuildHeight
+	// the build height of the lock is the one the proposal was validated under in PROPOSE_VOTE: the field of the PRECOMMIT message
+	// is not covered by any signature and a lock under another height could never be re-proposed
+	b.RCBuildHeight = b.validatedRCBuildHeight
 	b.HighQC.Block = b.Block
 	b.HighQC.Results = b.Results
 	b.log.Infof("🔒 Locked on proposal %s", lib.BytesToTruncatedString(b.HighQC.BlockHash))
